@@ -333,7 +333,8 @@ def evaluate(ctx, cases):
                 # (a) typeof(getctype(T)) is T
                 if rs["roundtrip_is"] is not True:
                     ctx.violation(c, "%s FFI: typeof(getctype(T)) is not T: T = %r, getctype(T) = %r (%s)" % (
-                        side, rs["cname"], rs["getctype"], rs.get("roundtrip_err") or rs.get("roundtrip_desc")))
+                        side, rs["cname"], rs["getctype"], rs.get("roundtrip_err") or rs.get("roundtrip_desc")),
+                        finding_key(side, rs["cname"]))
                 if rs["getctype"] != rs["cname"]:
                     ctx.violation(c, "%s FFI: getctype(T) = %r differs from T.cname = %r" % (side, rs["getctype"], rs["cname"]))
 
@@ -357,7 +358,7 @@ def evaluate(ctx, cases):
                     ctx.nontrivial((c["s"], x["text"]))
                     if got != want:
                         ctx.violation(c, "%s FFI: getctype(%r, %r) = %r re-parses to %r, the declarator denotes %r" % (
-                            side, rs["cname"], x["text"], xr["text"], xr["typeof"], want))
+                            side, rs["cname"], x["text"], xr["text"], xr["typeof"], want), finding_key(side, rs["cname"]))
                 # model correspondence
                 T = G.coq_desc(rs["desc"], prim_index, _ctx_for_sizes(g["ctx"], forced))
                 xs_lit = "; ".join("(%s, %s)" % (cstr(x["text"]), cstr(xr.get("text", "<error>")))
@@ -437,6 +438,15 @@ def eval_get_c_name(ctx, s, groups, cases):
             i, marked, x = owner[k]
             ctx.mismatch(cases[i], "get_c_name_py %r %r: model %s, model.py %s" % (marked, x, outs.get(k), coq[k][1]),
                          "C08.Model.get_c_name_py vs model.BaseTypeByIdentity.get_c_name")
+
+
+def finding_key(side, cname):
+    """the C-side parser can create a function ctype with a parameter of type void (printed '(void)' / '(void, ...')
+    when the result type is complex; no other function ctype prints 'void' as a parameter"""
+    import re
+    if side == "c" and re.search(r"\(void[,)]", cname) and "_complex_t" in cname:
+        return "void-param-function-type"
+    return None
 
 
 def _with_side(d, side):
